@@ -69,9 +69,12 @@ INC = [0.01, 0.9, math.pi / 2, 2.2, math.pi - 0.01]
 NODE = [0.0, 1.0, 3.5, 6.0]
 PERI = [0.0, 0.7, math.pi, 5.5]
 M_ELL = [-3.0, -0.5, 0.0, 0.5, 3.0, 3.3, 6.0, 7.5, -7.5]
-M_HYP = [0.5, -0.5, 4.0, -4.0, 20.0, -20.0, 200.0, -200.0, 1000.0, -1000.0]
+M_HYP = [0.5, -0.5, 4.0, -4.0, 20.0, -20.0, 200.0, -200.0, 1000.0, -1000.0, 5000.0, -5000.0]
 
-QUICK = dict(node=[1.0, 6.0], peri=[0.7, 5.5], m_ell=[-3.0, 0.0, 0.5, 3.3, 7.5], m_hyp=[0.5, -4.0, 20.0, -200.0, 200.0, 1000.0])
+QUICK = dict(node=[1.0, 6.0], peri=[0.7, 5.5], m_ell=[-3.0, 0.0, 0.5, 3.3, 7.5], m_hyp=[0.5, -4.0, 20.0, 1000.0, -1000.0, 5000.0, -5000.0])
+# (hyperbolic |M| = 1000 and 5000 of BOTH signs: the start value of M2E must be brought back from ~|M| - beyond the
+# overflow of sinh at 710 - on the outbound and on the inbound leg, for e in each regime e<1.6, e<3.6, e>=3.6;
+# e = 3.61: M/(e-1) = -1916 at M = -5000)
 
 # Tolerances (relative, in units of |r| and |v| of the reference state) = conditioning x round-off:
 #  * near-parabolic conditioning cond = 1 + 1/|1-e| (DESIGN.md): a = -mu/(2K) loses 2a/r = 2/|1-e| digits at
@@ -131,6 +134,13 @@ def units(tier, seed):
             chunk = orbits[k::nunits]
             if chunk:
                 u.append((cfg, dict(part=part, orbits=chunk)))
+    # Infos under operation histories: one unit per (orbit, source form, first operation)
+    for orb in H_ORBITS[tier]:
+        for S in _forms().FORMS:
+            if orb[1] > 1 and S in ("tle", "keplerian_mean_circular"):
+                continue
+            for first in H_OPS:
+                u.append((cfg, dict(part="hist", orbit=list(orb), S=S, first=first, depth=H_DEPTH[tier])))
     return u
 
 
@@ -392,6 +402,15 @@ def check_infos(orb, S, t):
     from beyond.frames.frames import get_frame
 
     body_r = float(get_frame(R["frame"]).center.body.r)
+    _compare_infos(t, infos, ref, R["conic"], cond, body_r, case,
+                   lambda name, kind: f"Infos.{name}/{kind}" + (f"/{R['conic']}" if kind != "value" else ""),
+                   ("infos",) + tuple(orb) + (S,), f"M = {orb[5]}", "infos.")
+    t.outcome(("infos", S, R["conic"]))
+
+
+def _compare_infos(t, infos, ref, conic, cond, body_r, case, sig, evkey, label, mprefix):
+    """Every derived quantity of `infos` against its defining relation evaluated on r, v (`ref` = infos_ref(rv, mu)).
+    sig(name, kind) names the signature (kind in raises / type / value)."""
     rn, vn = ref["r"], ref["v"]
     # expected value, scale of the comparison
     exp = {
@@ -400,45 +419,52 @@ def check_infos(orb, S, t):
         "zp": (ref["rp"] - body_r, ref["rp"]), "fpa": (ref["fpa"], 1.0), "cos_fpa": (ref["cos_fpa"], 1.0),
         "sin_fpa": (ref["sin_fpa"], 1.0),
     }
-    if R["conic"] == "ell":
+    if conic == "ell":
         exp.update({"ra": (ref["ra"], ref["ra"]), "apocenter": (ref["ra"], ref["ra"]), "va": (ref["va"], ref["va"]),
                     "za": (ref["ra"] - body_r, ref["ra"]), "period": (ref["period"], ref["period"])})
         names = INFO_ATTRS + INFO_ELL
     else:
         exp.update({"vinf": (ref["vinf"], ref["vinf"]), "dinf": (ref["dinf"], ref["dinf"])})
         names = INFO_ATTRS + INFO_HYP
+    nbad = 0
     for name in names:
         clause = "derived orbit quantities obey their defining relations"
         try:
             val = getattr(infos, name)
         except Exception as ex:
-            t.fail(f"Infos.{name}/raises/{R['conic']}", clause, case, exp.get(name, [None])[0], repr(ex))
+            t.fail(sig(name, "raises"), clause, case, exp.get(name, [None])[0], repr(ex), f"infos.{name} raised {ex!r} ({label})")
+            nbad += 1
             continue
         t.trans()
-        t.ev(("infos",) + tuple(orb) + (S,))
+        t.ev(evkey)
         if name == "type":
-            want = "elliptic" if R["conic"] == "ell" else "hyperbolic"
+            want = "elliptic" if conic == "ell" else "hyperbolic"
             if val != want:
-                t.fail(f"Infos.type/{R['conic']}", clause, case, want, val)
+                t.fail(sig(name, "type"), clause, case, want, val, f"infos.type = {val!r} ({label})")
+                nbad += 1
             continue
         if name == "period":
             # timedelta: resolution 1 microsecond
             got = val.total_seconds()
             tol = TOL_INFO_A * cond * 1.5 * exp[name][1] + 1e-6
             d = abs(got - exp[name][0])
-            if not _margin(t, "infos.period [s, tol = 1.5e-11 cond P + 1 us]", d, tol, case):
-                t.fail(f"Infos.period/value/{R['conic']}", clause, case, exp[name][0], got, f"period off by {d:.3e} s")
+            if not _margin(t, mprefix + "period [s, tol = 1.5e-11 cond P + 1 us]", d, tol, case):
+                t.fail(sig(name, "value") if mprefix != "infos." else f"Infos.period/value/{conic}", clause, case, exp[name][0], got,
+                       f"infos.period = {got!r} s, defining relation gives {exp[name][0]!r} s (off by {d:.3e} s; {label})")
+                nbad += 1
             continue
         got = float(val)
         want, scale = exp[name]
         if not math.isfinite(got):
-            t.fail(f"Infos.{name}/value", clause, case, want, repr(got), f"infos.{name} = {got!r} (non-finite; defining relation gives {want:.12g}; M = {orb[5]})")
+            t.fail(sig(name, "value"), clause, case, want, repr(got), f"infos.{name} = {got!r} (non-finite; defining relation gives {want:.12g}; {label})")
+            nbad += 1
             continue
         d = abs(got - want) / scale
-        tol = (TOL_INFO_A if name in INFO_A_ONLY else TOL_INFO[R['conic']]) * cond
-        if not _margin(t, f"infos.{name} [rel/cond]", d, tol, case):
-            t.fail(f"Infos.{name}/value", clause, case, want, got, f"infos.{name} = {got!r}, defining relation gives {want!r} (rel {d:.3e}, tol {tol:.1e})")
-    t.outcome(("infos", S, R["conic"]))
+        tol = (TOL_INFO_A if name in INFO_A_ONLY else TOL_INFO[conic]) * cond
+        if not _margin(t, f"{mprefix}{name} [rel/cond]", d, tol, case):
+            t.fail(sig(name, "value"), clause, case, want, got, f"infos.{name} = {got!r}, defining relation gives {want!r} (rel {d:.3e}, tol {tol:.1e}; {label})")
+            nbad += 1
+    return nbad
 
 
 def check_walks(orb, S, X, t, first=None):
@@ -465,6 +491,129 @@ def check_walks(orb, S, X, t, first=None):
     t.ev(("walk",) + tuple(orb) + (S,) if X != S else None, n=len(R["forms"]))
 
 
+
+# ---------------------------------------------------------------------------
+# Infos under operation histories (explicit-state part)
+#
+# A case is a whole short history executed on freshly built objects: nothing is shared between cases.
+# Objects: the original state vector and the copies made of it.  Operations act on the current target
+# (the original, or the latest copy once one was made):
+#   read      read derived quantities through target.infos (populates whatever the library caches)
+#   idx       write the last three components by index:  target[3:] = 1.01 x target[3:]
+#   name      write the first component by its name:     target.<first parameter> = 0.97 x value
+#   form      in-place form change   target.form = <another form>
+#   frame     in-place frame change  target.frame = EME2000 <-> G50 (constant rotation, same centre)
+#   copy      target = target.copy()
+#   copyform  target = target.copy(form=<another form>)
+# After the last operation the Infos of EVERY live object are compared with the defining relations evaluated on
+# the cartesian state the reference model derives from that object's CURRENT numbers, form and (same-centre) frame.
+
+H_OPS = ["read", "idx", "name", "form", "frame", "copy", "copyform"]
+H_FRAMES = {"EME2000": "G50", "G50": "EME2000"}
+H_ORBITS = {
+    "quick": [("earth", 0.3, 0.9, 1.0, 0.7, 0.5), ("earth", 1.61, 2.2, 6.0, 5.5, -4.0)],
+    "thorough": [("earth", 0.3, 0.9, 1.0, 0.7, 0.5), ("earth", 1.61, 2.2, 6.0, 5.5, -4.0), ("earth", 0.01, 2.2, 3.5, 5.5, 3.3),
+                 ("earth", 0.7, 0.01, 6.0, 0.7, -3.0)],
+}
+H_DEPTH = {"quick": 3, "thorough": 4}
+
+
+def histories(depth):
+    out = [()]
+    for d in range(1, depth + 1):
+        out.extend(itertools.product(H_OPS, repeat=d))
+    return out
+
+
+def _next_form(forms, cur):
+    return forms[(forms.index(cur) + 3) % len(forms)]
+
+
+def check_history(orb, S, ops, t):
+    from mc.ref import twobody as tb
+    from beyond.frames.frames import get_frame
+
+    fr = _forms()
+    R = ref_orbit(orb)
+    forms = R["forms"]
+    case = dict(kind="history", orbit=list(orb), S=S, ops=list(ops), config={"frames": "c01"})
+    sv = _sv(R, S, R["nums"][S])
+    objs = [dict(role="original", obj=sv, mut="none", read_before=False)]
+    cur = objs[0]
+    any_read = False
+    for k, op in enumerate(ops):
+        o = cur["obj"]
+        try:
+            if op == "read":
+                inf = o.infos
+                _ = (inf.v, inf.r, inf.rp, inf.fpa)
+                any_read = True
+            elif op == "idx":
+                o[3:] = np.array(o, dtype=float)[3:] * 1.01
+                cur["mut"], cur["read_before"] = "write", any_read
+            elif op == "name":
+                setattr(o, o.form.param_names[0], float(np.array(o, dtype=float)[0]) * 0.97)
+                cur["mut"], cur["read_before"] = "write", any_read
+            elif op == "form":
+                o.form = _next_form(forms, o.form.name)
+                if cur["mut"] != "write":
+                    cur["mut"], cur["read_before"] = "form", any_read
+            elif op == "frame":
+                o.frame = H_FRAMES[o.frame.name]
+                if cur["mut"] != "write":
+                    cur["mut"], cur["read_before"] = "frame", any_read
+            elif op in ("copy", "copyform"):
+                c = o.copy() if op == "copy" else o.copy(form=_next_form(forms, o.form.name))
+                cur = dict(role="copy", obj=c, mut="copied", read_before=any_read)
+                objs.append(cur)
+            else:
+                raise ValueError(op)
+        except Exception as ex:
+            if op not in H_OPS:
+                raise
+            t.fail(f"history/{op}-raises/{R['conic']}", "operations on a state vector succeed", case, None, repr(ex), f"step {k} ({op}) of {list(ops)} from {S}: {ex!r}")
+            return
+        t.trans()
+    t.states_add(1)
+    t.ev(("hist",) + tuple(orb) + (S,) if ops else None)
+    body_r = float(get_frame(R["frame"]).center.body.r)
+    for j, d in enumerate(objs):
+        o = d["obj"]
+        arr = np.array(o, dtype=float)
+        form = o.form.name
+        if o.frame.name not in H_FRAMES or not _finite(arr):
+            t.fail(f"history/state-lost/{R['conic']}", "operations keep a valid state", case, None, [o.frame.name, arr])
+            continue
+        rv = fr.to_cart(form, arr, R["mu"])
+        k = tb.cart_to_kep(rv, R["mu"])
+        e, inc = k["e"], k["i"]
+        if not ((1e-4 <= e <= 0.99 or 1.001 <= e <= 20) and 0.01 <= inc <= math.pi - 0.01) or (e < 1) != (R["e"] < 1):
+            t.exclude("history leaves the property's domain of e / i (or changes the type of conic)")
+            continue
+        conic = "ell" if e < 1 else "hyp"
+        cond = 1 + 1 / abs(1 - e)
+        # the state itself must still convert correctly (else: a form-conversion failure, reported by the pair part)
+        try:
+            chk = np.array(o.copy(form="keplerian"), dtype=float)
+            rv2 = fr.to_cart("keplerian", chk, R["mu"])
+            okconv = _finite(chk) and max(np.linalg.norm(rv2[:3] - rv[:3]) / np.linalg.norm(rv[:3]), np.linalg.norm(rv2[3:] - rv[3:]) / np.linalg.norm(rv[3:])) <= TOL_CART[conic] * cond
+        except Exception:
+            okconv = False
+        if not okconv:
+            t.note("history: infos not examined, the state's own conversion fails (pair part)", 1)
+            continue
+        ref = fr.infos_ref(rv, R["mu"])
+        cls = f"{d['role']}/after-{d['mut']}/{'infos-read-before' if d['read_before'] else 'infos-not-read-before'}"
+        c2 = dict(case, object=j)
+        _compare_infos(t, o.infos, ref, conic, cond, body_r, c2, lambda name, kind: f"Infos/history/{cls}",
+                       None, f"object #{j} ({d['role']}) after {list(ops)} from {S}; current form {form}, frame {o.frame.name}",
+                       "history infos.")
+        # the Infos object handed out must describe the object it was asked from
+        if getattr(o.infos, "orb", o) is not o:
+            t.fail(f"Infos/history/{cls}", "infos describes the state it is read from", c2, "infos.orb is the object", "another object",
+                   f"object #{j} ({d['role']}) after {list(ops)}: infos.orb is not the object read")
+    t.outcome(("hist", len(ops), R["conic"], tuple(sorted(set(ops)))))
+
 # ---------------------------------------------------------------------------
 
 
@@ -475,6 +624,14 @@ def _exclusions(orb, t, per):
 
 
 def run_unit(p, t):
+    if p["part"] == "hist":
+        orb = tuple(p["orbit"])
+        if p["first"] == H_OPS[0]:
+            check_history(orb, p["S"], (), t)
+        for ops in histories(p["depth"]):
+            if ops and ops[0] == p["first"]:
+                check_history(orb, p["S"], ops, t)
+        return
     for orb in p["orbits"]:
         orb = tuple(orb)
         R = ref_orbit(orb)
@@ -502,5 +659,7 @@ def replay(case, t):
         check_infos(orb, case["S"], t)
     elif case["kind"] == "walk":
         check_walks(orb, case["S"], case["X"], t)
+    elif case["kind"] == "history":
+        check_history(orb, case["S"], tuple(case["ops"]), t)
     else:
         raise ValueError(case["kind"])
